@@ -34,6 +34,6 @@ def run(ctx):
         shards.append(cur)
     ctx.cov["evaluations"] = len(lines)
     ctx.cov["distinct_nontrivial"] = sum(1 for l in lines if '"ev":"Append"' in l)
-    ctx.cov["rule"] = "behaviours = fresh MMR with 80 (quick) / 300 (thorough) appends and restored peak lists (with empty slots) + 9 appends, on both APIs; non-trivial = append events"
+    ctx.cov["rule"] = "behaviours = fresh MMR with 80 (quick) / 300 (thorough) appends, fresh MMRs whose items at chosen positions are the all-zero hash, and restored peak lists (with empty slots, incl. 255 and 256 items) + appends, on both APIs; non-trivial = append events"
     ctx.cov["samples"] = [json.loads(l) for l in lines[:4]]
     vf.validate_trace(ctx, "MMR_Trace", shards, stateful=True, what="MMR deviates from the Gray Paper append/super-peak", timeout=1500)
